@@ -227,9 +227,9 @@ harness("C14", args="op: int, c1: int, e1: int, c2: int, e2: int, p1: int, p2: i
                                    for op in range(3) for (a, b) in ((0, 0), (3, -6), (-9, 0), (-24, 24), (2, 1))] +
                                   # products whose prefix exponents add up to a non-prefix exponent (4, -4, 27, -45: residual rescaling)
                                   [(f"op2_{_t(a)}_{_t(b)}", f"op == 2 and p1 == {a} and p2 == {b} and fr == 0") for (a, b) in ((3, 1), (-2, -2), (24, 3), (-24, -21), (6, -1))]},
-               "thorough": {"timeout": 1200, "pre": ["-10**12 < c1 < 10**12", "-10**12 < c2 < 10**12", "-3 <= e1 <= 3", "-3 <= e2 <= 3", _FR],
-                            "parts": [(f"op{op}_{_t(a)}_{_t(b)}", f"op == {op} and p1 == {a} and p2 == {b}")
-                                      for op in range(3) for a in PVALS[::3] for b in PVALS[1::4]]}},
+               "thorough": {"timeout": 600, "pre": ["-10**12 < c1 < 10**12", "-10**12 < c2 < 10**12", "-3 <= e1 <= 3", "-3 <= e2 <= 3", _FR],
+                            "parts": [(f"op{op}_{_t(a)}_{_t(b)}_e{_t(k)}", f"op == {op} and p1 == {a} and p2 == {b} and e1 == {k}")
+                                      for op in range(3) for a in PVALS[::3] for b in PVALS[1::4] for k in range(-3, 4)]}},
         sample=(0, 15, 0, 25, -1, 3, -6, 0), real_twin=_br,
         bounds="quick |c| < 10^6, e1 in [-1,1], e2 = 0, log10 pinned, 5 prefix pairs x 3 ops + 5 pairs with a non-prefix exponent sum for *; thorough |c| < 10^12, e in [-3,3], log10 nondeterministic, 7x5 prefix pairs x 3 ops; results needing > 28 digits excluded",
         generalises="both mantissas (coefficient, exponent) as integers", outside="results with more than 28 significant digits; other prefix pairs")(binary_exact)
